@@ -254,7 +254,14 @@ func genDelimited(t *rapid.T) string {
 	if closeIt {
 		tok += d
 	}
-	switch rapid.IntRange(0, 5).Draw(t, "place") {
+	switch uni(t, 10, "place") {
+	case 6, 7:
+		// directly followed by every other kind of token (what the parser does with the pair)
+		return tok + hostileLexemes[uni(t, len(hostileLexemes), "next")]
+	case 8:
+		return hostileLexemes[uni(t, len(hostileLexemes), "prev")] + tok
+	case 9:
+		return tok + hostileLexemes[uni(t, len(hostileLexemes), "next")] + hostileLexemes[uni(t, len(hostileLexemes), "next2")]
 	case 0:
 		return tok
 	case 1:
